@@ -83,6 +83,8 @@ def _run_config(ctx, r, idx, bench, use_app):
 	def tune(i):
 		if r.random() < 0.3:
 			k = r.randint(1, min(8, len(pool)) if r.random() < .8 else 12)
+			if r.random() < 0.12:
+				k = r.choice((31, 32, 33, 63, 64))      # long mobile allocations (the mask of the hopping generator)
 			ma = [(r.choice(pool), r.choice(pool)) for _ in range(k)]
 			hsn = r.choice((0, 0, 1, 5, 63, r.randrange(64)))
 			return cmd(i, "SETFH %d %d %s" % (hsn, r.randrange(64), " ".join("%d %d" % p for p in ma)))
@@ -124,6 +126,15 @@ def _run_config(ctx, r, idx, bench, use_app):
 			# also versions the transceiver does not support: answered with a suggestion, nothing applied
 			if not cmd(i, "SETFORMAT %d" % r.choice((0, 1, 0, 1, 2, 3, 15))):
 				return
+		if r.random() < 0.08:
+			# a late burst: its frame has passed, it is reported stale inside the next tick of its sender - and
+			# that must not keep anybody else from being served in that tick
+			x = r.randrange(n)
+			if bench.models[x].running:
+				late = {"dir": "tx", "ver": bench.models[x].ver, "fn": (fn - r.randint(1, 40)) % trxd.HYPERFRAME, "tn": r.randrange(8),
+					"pwr": 0, "bits": trxd.rand_bits(r, 148)}
+				bench.nodes[x].data_raw(trxd.encode(late))
+				ctx.count("late_bursts_injected")
 		# one burst from a random transceiver (running or not)
 		s = r.randrange(n)
 		# the same frame number is used again now and then (e.g. right after a re-tune: per-frame
@@ -230,6 +241,7 @@ def run(ctx):
 	ctx.require("configs_app", 20)
 	ctx.require("configs_direct", 20)
 	ctx.require("deferred_bursts", 200)
+	ctx.require("late_bursts_injected", 100)
 
 
 def replay(ctx, data):
